@@ -61,6 +61,8 @@ type world struct {
 	order  []string
 	fields []string
 	mode   string // rep: replicator A->B ; sub: B subscribes to the collection (pubsub), no replicator
+	// the DAG sync's link timeout before "slow" (0: not slow)
+	slowOld time.Duration
 }
 
 func freePort() int {
@@ -105,6 +107,10 @@ func (w *world) open(i *inst) {
 }
 
 func (w *world) close() {
+	if w.slowOld != 0 {
+		defranet.VerifSetSyncLinkTimeout(w.slowOld)
+		w.slowOld = 0
+	}
 	for _, i := range []*inst{w.a, w.b} {
 		if i != nil && i.up {
 			_ = i.n.Close(w.ctx)
@@ -357,6 +363,17 @@ func runCase(ctx context.Context, out *vc.Out, base string, lines []string) {
 			if res == "" {
 				res = "ok"
 			}
+		case "slow": // B stays reachable and accepts pushes, but its DAG sync cannot fetch any linked block in time
+			if w.slowOld == 0 {
+				w.slowOld = defranet.VerifSetSyncLinkTimeout(time.Nanosecond)
+			}
+			res = "ok"
+		case "fast":
+			if w.slowOld != 0 {
+				defranet.VerifSetSyncLinkTimeout(w.slowOld)
+				w.slowOld = 0
+			}
+			res = "ok"
 		case "patch": // patch <field>: the same add-field patch on A and on B (B must be up)
 			p := fmt.Sprintf(`[{ "op": "add", "path": "/K1/Fields/-", "value": {"Name": "%s", "Kind": 11} }]`, t[1])
 			ea := w.a.n.DB.PatchSchema(ctx, p, noLens, true)
@@ -394,7 +411,7 @@ func genCase(r *vc.Rng, id uint64) []string {
 	lines := []string{fmt.Sprintf("case %d %s", id, mode), "start"}
 	ndoc := 0
 	var docs []string
-	up := true
+	up, slow := true, false
 	patches := []string{"email", "nick"}
 	np := 0
 	hasField := func(f string) bool { return false }
@@ -414,13 +431,20 @@ func genCase(r *vc.Rng, id uint64) []string {
 				lines = append(lines, fmt.Sprintf(`update %s {"n": %d}`, l, 100+i))
 			}
 		case x < 9 && mode == "rep":
-			if up {
+			switch {
+			case up && r.Chance(1, 3):
+				lines = append(lines, "slow")
+				slow = true
+			case up:
 				lines = append(lines, "down")
-			} else {
+			case slow:
+				lines = append(lines, "fast")
+				slow = false
+			default:
 				lines = append(lines, "up")
 			}
 			up = !up
-		case x == 9 && up && np < len(patches):
+		case x == 9 && (up || slow) && np < len(patches):
 			lines = append(lines, "patch "+patches[np])
 			np++
 		case x >= 10 && mode == "rep":
@@ -428,7 +452,11 @@ func genCase(r *vc.Rng, id uint64) []string {
 		}
 	}
 	if !up {
-		lines = append(lines, "up")
+		if slow {
+			lines = append(lines, "fast")
+		} else {
+			lines = append(lines, "up")
+		}
 	}
 	if mode == "rep" {
 		lines = append(lines, "retry", "retry")
@@ -472,9 +500,11 @@ func main() {
 			"down", `update d2 {"n": 3}`, `create d3 {"name": "v3", "n": 3}`, "up", "retry", "retry", "settle"})
 		cases = append(cases, []string{"case 2 rep", "start", `create d1 {"name": "v1", "n": 1}`, "patch email", "down", `update d1 {"email": "e1"}`, `create d2 {"name": "v2", "n": 2, "email": "e2"}`,
 			"up", "retry", "retry", "settle"})
+		// directed: a sync cut short (B holds the pushed head but nothing behind it), then the retry
+		cases = append(cases, []string{"case 3 rep", "start", `create d1 {"name": "v1", "n": 1}`, "slow", `update d1 {"n": 2, "name": "w1"}`, `create d2 {"name": "v2", "n": 2}`, "fast", "retry", "retry", "settle"})
 		for i := 0; i < n; i++ {
 			cr, _ := r.Fork()
-			cases = append(cases, genCase(cr, uint64(i+3)))
+			cases = append(cases, genCase(cr, uint64(i+4)))
 		}
 	}
 	for _, c := range cases {
